@@ -20,6 +20,7 @@ EXPLANATION = (
     "format forces cycle breaking (LogicDAG) and writes CNF.createFrom(gp).to_dimacs(...); the Prolog format calls gp.to_prolog() on a formula "
     "grounded with label_all / avoid_name_clash / keep_order switched on unless the user passes the corresponding opt-out flag (all store_true, "
     "default off) - the flags to_prolog documents as required."
+    " Added after seed round 6: U5 memo-key rule over the export path (to_prolog call closure): a memoised value is keyed by every argument the callee reads (positive example matched on every run); U6 enum_clauses writes a disjunct unless extract_ads consumed it and it has no name of its own."
 )
 TECHNIQUE = "static analysis: decision table of the DIMACS writer loop (every internal clause emitted once), writer/counter pairing, wiring rules of the ground task"
 LEVEL_TEXT = EXPLANATION
